@@ -118,6 +118,61 @@ def run(chk):
             rc2 = core.call_real(lambda: np.asarray(metric.calc_cdist_matrix(A.iloc[perm], B)))
             if rc2[0] != "ok" or not np.array_equal(rc2[1], rc[1][perm, :]):
                 chk.violation("C09|row-order", f"{cname}: permuting the anchor rows does not permute the matrix rows", meta)
+    # ---- the same table object edited in place between two calls (CDR3 cell, V allele, or both): the second result
+    # is that of the table as it is NOW, for the same metric object and for a new one of any class
+    for t in range(12 if not thorough else 100):
+        cname = rng.choice(list(CLASSES))
+        chain, cdr, allowed = CLASSES[cname]
+        metric = getattr(tm, cname)()
+        A, ka = table(rng.randint(2, 7))
+        core.call_real(lambda: metric.calc_pdist_vector(A))
+        core.call_real(lambda: metric.calc_cdist_matrix(A, A))
+        what = rng.choice(["cdr3", "cdr3", "v", "both"])
+        r_ = rng.randrange(len(A))
+        if what in ("cdr3", "both"):
+            for col in ("CDR3A", "CDR3B"):
+                A.iloc[r_, A.columns.get_loc(col)] = gen.mutate(rng, A.iloc[r_][col], AA, rng.randint(1, 3)) + "W"
+        if what in ("v", "both"):
+            A.iloc[r_, A.columns.get_loc("TRAV")] = rng.choice(va)
+            A.iloc[r_, A.columns.get_loc("TRBV")] = rng.choice(vb)
+        cname2 = cname if rng.random() < 0.5 else rng.choice(list(CLASSES))
+        chain2, cdr2, _al = CLASSES[cname2]
+        metric2 = metric if cname2 == cname and rng.random() < 0.6 else getattr(tm, cname2)()
+        A0 = A.copy(deep=True)
+        rp = core.call_real(lambda: np.asarray(metric2.calc_pdist_vector(A)))
+        rc = core.call_real(lambda: np.asarray(metric2.calc_cdist_matrix(A, A)))
+        meta = {"class": cname2, "kwargs": {}, "index_kinds": [ka, ka], "n": [len(A), len(A)], "history": f"{cname} on the table, then {what} of row {r_} edited in place"}
+        ma = model_rows(A)
+        wl = [1] * 8
+        ops.append({"op": "tcr_pdist", "chain": chain2, "cdr": cdr2, "w": wl, "xs": ma})
+        checks.append(("pdist", meta, rp, A.equals(A0), (ma, None)))
+        ops.append({"op": "tcr_cdist", "chain": chain2, "cdr": cdr2, "w": wl, "as": ma, "bs": ma})
+        checks.append(("cdist", meta, rc, A.equals(A0), (ma, ma)))
+    # ---- a large table (>= 1000 rows, few distinct CDR3s, so many rows share their CDR3s but differ in V allele):
+    # entries of the condensed vector sampled at random positions against the model of the two rows
+    for cname in (["CdrLevenshtein", "AlphaCdrLevenshtein"] if not thorough else list(CLASSES)):
+        chain, cdr, allowed = CLASSES[cname]
+        nbig = 1003
+        c3a = [gen.mutate(rng, roots[0], AA, 1) for _ in range(4)]
+        c3b = [gen.mutate(rng, roots[1], AA, 1) for _ in range(3)]
+        vsa, vsb = rng.sample(va, 4), rng.sample(vb, 3)
+        big = pd.DataFrame({"TRAV": [rng.choice(vsa) for _ in range(nbig)], "CDR3A": [rng.choice(c3a) for _ in range(nbig)],
+                            "TRBV": [rng.choice(vsb) for _ in range(nbig)], "CDR3B": [rng.choice(c3b) for _ in range(nbig)]},
+                           index=[i // 3 for i in range(nbig)])
+        metric = getattr(tm, cname)(cdr1_weight=2) if "c1" in allowed else getattr(tm, cname)()
+        wl = [1, 1, 1, 1, 1, 2 if "c1" in allowed else 1, 1, 1]
+        rbig = core.call_real(lambda: np.asarray(metric.calc_pdist_vector(big)))
+        rowsb = model_rows(big)
+        if rbig[0] != "ok" or len(rbig[1]) != nbig * (nbig - 1) // 2:
+            chk.violation(f"C09|{cname}|pdist-large|shape", f"{cname}.calc_pdist_vector on {nbig} rows: {str(rbig)[:100]}", {"class": cname, "n": nbig})
+            continue
+        for _ in range(60):
+            i = rng.randrange(nbig - 1)
+            j = rng.randrange(i + 1, nbig)
+            pos = nbig * i + j - ((i + 2) * (i + 1)) // 2
+            ops.append({"op": "tcr_cdist", "chain": chain, "cdr": cdr, "w": wl, "as": [rowsb[i]], "bs": [rowsb[j]]})
+            checks.append(("cdist", {"class": cname, "kwargs": {"cdr1_weight": 2} if "c1" in allowed else {}, "index_kinds": ["large-duplicated"], "n": [nbig],
+                                     "entry": [i, j]}, ("ok", np.array([[rbig[1][pos]]])), True, ([rowsb[i]], [rowsb[j]])))
     ans = core.run_driver_parallel(ops, nproc=8)
     for (kind, meta, real, unchanged, rows), a, op in zip(checks, ans, ops):
         want = a[1]
